@@ -1,5 +1,255 @@
+//! Workload "history" (C17): read operations are independent of what was read before.
+//! On one reader, random operation sequences with early termination, on intact files and
+//! files with a damaged page / damaged section header, optionally with one transient device
+//! error and short reads. Every result must equal the memoised result of the same operation
+//! on a fresh reader.
+
+use crate::crc::{FastCrc, PAGE};
+use crate::dev::{Chunking, Dev, FaultKind};
+use crate::json::J;
+use crate::obs::*;
+use crate::rng::Rng;
+use crate::scene::*;
+use crate::w_crc::all_blobs;
 use crate::{Args, Reporter};
-pub fn run(_a: &Args, _rep: &mut Reporter) {
-    eprintln!("workload not built yet");
-    std::process::exit(2);
+use e57::*;
+use std::collections::HashMap;
+
+#[derive(Clone, Debug, PartialEq, Eq, Hash)]
+pub enum HOp {
+    Raw(usize, usize),        // point cloud i, take k items then drop
+    Simple(usize, usize, u8), // point cloud i, take k items, option vector
+    Blob(usize),
+    Meta,
+}
+
+fn kind(op: &HOp) -> &'static str {
+    match op {
+        HOp::Raw(..) => "raw",
+        HOp::Simple(..) => "simple",
+        HOp::Blob(..) => "blob",
+        HOp::Meta => "meta",
+    }
+}
+
+fn multi_scene(r: &mut Rng, cover: &mut crate::Cover) -> Scene {
+    let mut k = Knobs::base();
+    k.max_items = 0;
+    k.big_points = false;
+    k.max_records = 8;
+    let mut s = gen_scene(r, &k, cover);
+    let npc = 2 + r.usize(3);
+    let nblob = 2 + r.usize(3);
+    let mut items: Vec<Item> = Vec::new();
+    for _ in 0..npc {
+        let mut pc = gen_pc(r, &k, &[], cover);
+        pc.meta = PcMeta::default();
+        let n = *r.pick(&[3usize, 10, 60, 150]);
+        pc.points = (0..n).map(|_| gen_point(r, &pc.prototype, false)).collect();
+        items.push(Item::Pc(pc));
+    }
+    for i in 0..nblob {
+        let len = *r.pick(&[5usize, 300, 1100, 2300]);
+        items.push(Item::Blob(gen_blob_data(r, len, i as u8)));
+    }
+    r.shuffle(&mut items);
+    s.items = items;
+    s
+}
+
+/// execute one operation on a reader; result rendered as a comparable string
+fn exec<T: std::io::Read + std::io::Seek>(rd: &mut E57Reader<T>, pcs: &[PointCloud], blobs: &[Blob], op: &HOp) -> std::result::Result<String, String> {
+    let r = guarded(|| -> String {
+        match op {
+            HOp::Meta => format!("ok:{:016x}", crate::json::fnv64(meta_lines(rd, true).join("\n").as_bytes())),
+            HOp::Blob(i) => match read_blob(rd, &blobs[*i]) {
+                Ok((n, d)) => format!("ok:{}:{:016x}", n, crate::json::fnv64(&d)),
+                Err(e) => format!("err:{}", e),
+            },
+            HOp::Raw(i, k) => match read_raw(rd, &pcs[*i], *k) {
+                Ok(rr) => format!("{}|{}", rr.items.iter().map(|p| raw_str(p)).collect::<Vec<_>>().join(";"), rr.end.render()),
+                Err(e) => format!("open-err:{}", e),
+            },
+            HOp::Simple(i, k, o) => match read_simple(rd, &pcs[*i], Opts(*o), *k) {
+                Ok(rr) => format!("{}|{}", rr.items.iter().map(point_str).collect::<Vec<_>>().join(";"), rr.end.render()),
+                Err(e) => format!("open-err:{}", e),
+            },
+        }
+    });
+    r
+}
+
+pub fn run(a: &Args, rep: &mut Reporter) {
+    let fc = FastCrc::new();
+    let (done, reason) = crate::run_cases(a, rep, |idx, cs, rep| {
+        let mut r = Rng::new(cs);
+        let mut cover = std::mem::take(&mut rep.cover);
+        let scene = multi_scene(&mut r, &mut cover);
+        let dev = Dev::empty();
+        let run = run_scene(&scene, dev.clone(), Judge::Conforming);
+        if !run.finalized {
+            rep.stat("not_finalized", 1);
+            rep.cover = cover;
+            return;
+        }
+        let mut bytes = dev.bytes();
+        let extra: Vec<Blob> = run.blobs.iter().map(|(b, _)| b.clone()).collect();
+        // damage class
+        let damage = r.usize(4);
+        let (pcs, blobs) = match E57Reader::new(std::io::Cursor::new(bytes.clone())) {
+            Ok(rd) => (rd.pointclouds(), all_blobs(&rd.images(), &extra)),
+            Err(_) => {
+                rep.stat("baseline_open_failed", 1);
+                rep.cover = cover;
+                return;
+            }
+        };
+        let xml_page = {
+            let rd = E57Reader::new(std::io::Cursor::new(bytes.clone())).ok();
+            rd.map(|r| (r.header().phys_xml_offset / PAGE as u64) as usize).unwrap_or(1)
+        };
+        match damage {
+            1 if xml_page > 1 => {
+                // one damaged data page (checksum mismatch), not page 0 and not XML
+                let p = 1 + r.usize(xml_page - 1);
+                let off = p * PAGE + r.usize(PAGE);
+                bytes[off] ^= 1 << r.usize(8);
+                cover.hit("damage:page");
+            }
+            2 => {
+                // damaged section header of one point cloud, checksums re-sealed
+                let pc = r.pick(&pcs).clone();
+                let off = pc.file_offset as usize;
+                if off + 32 < bytes.len() && (off % PAGE) + 32 < 1020 {
+                    match r.usize(3) {
+                        0 => bytes[off] = 7,
+                        1 => bytes[off + 16] ^= 0x40,
+                        _ => bytes[off + 8] ^= 0x01,
+                    }
+                    fc.seal(&mut bytes);
+                    cover.hit("damage:section-header");
+                }
+            }
+            3 => {
+                // damaged blob header
+                if let Some(b) = blobs.first() {
+                    let off = b.offset as usize;
+                    if off + 16 < bytes.len() && (off % PAGE) + 16 < 1020 {
+                        bytes[off] = 3;
+                        fc.seal(&mut bytes);
+                        cover.hit("damage:blob-header");
+                    }
+                }
+            }
+            _ => cover.hit("damage:none"),
+        }
+        // fresh-reader results, memoised
+        let mut memo: HashMap<HOp, std::result::Result<String, String>> = HashMap::new();
+        let mut fresh = |op: &HOp, bytes: &Vec<u8>| -> std::result::Result<String, String> {
+            if let Some(x) = memo.get(op) {
+                return x.clone();
+            }
+            let res = match guarded(|| E57Reader::new(std::io::Cursor::new(bytes.clone()))) {
+                Ok(Ok(mut rd)) => exec(&mut rd, &pcs, &blobs, op),
+                Ok(Err(e)) => Ok(format!("cannot-open:{}", err_str(&e))),
+                Err(p) => Err(p),
+            };
+            memo.insert(op.clone(), res.clone());
+            res
+        };
+        // the sequence
+        let n = 5 + r.usize(36);
+        let gen_op = |r: &mut Rng| -> HOp {
+            match r.usize(8) {
+                0 | 1 | 2 => {
+                    let i = r.usize(pcs.len());
+                    let all = pcs[i].records as usize + 2;
+                    HOp::Raw(i, *r.pick(&[0usize, 1, all / 2, all]))
+                }
+                3 | 4 => {
+                    let i = r.usize(pcs.len());
+                    let all = pcs[i].records as usize + 2;
+                    HOp::Simple(i, *r.pick(&[0usize, 1, all / 2, all]), *r.pick(&[Opts::DEFAULT.0, 0, 63, 0b101010]))
+                }
+                5 | 6 if !blobs.is_empty() => HOp::Blob(r.usize(blobs.len())),
+                _ => HOp::Meta,
+            }
+        };
+        let seq: Vec<HOp> = (0..n).map(|_| gen_op(&mut r)).collect();
+        // device: optionally short reads + one transient error
+        let transient = r.chance(1, 2);
+        let rdev = Dev::new(bytes.clone());
+        if r.chance(1, 2) {
+            rdev.set_chunking(Chunking::Small(*r.pick(&[1usize, 7, 300, 500, 1023])), Chunking::Full);
+            cover.hit("device:short-reads");
+        }
+        let d2 = rdev.clone();
+        let mut rd = match guarded(move || E57Reader::new(d2)) {
+            Ok(Ok(rd)) => rd,
+            _ => {
+                rep.stat("open_failed", 1);
+                rep.cover = cover;
+                return;
+            }
+        };
+        rep.stat("sequences", 1);
+        let fault_at_op = if transient { Some(r.usize(seq.len())) } else { None };
+        let mut prev: Option<(&'static str, bool)> = None;
+        let mut failed_before = false;
+        for (oi, op) in seq.iter().enumerate() {
+            let mut faulted = false;
+            if fault_at_op == Some(oi) {
+                // one transient device error somewhere inside this operation's traffic
+                let at = rdev.ops_done() + r.below(6);
+                rdev.set_fault(at, *r.pick(&[FaultKind::Other, FaultKind::Eof]), false);
+                faulted = true;
+            }
+            let got = exec(&mut rd, &pcs, &blobs, op);
+            let hit = faulted && rdev.fail_hit().is_some();
+            if faulted && !hit {
+                // the fault lies beyond this operation's traffic: disarm
+                rdev.set_fault(u64::MAX, FaultKind::Other, false);
+            }
+            rep.stat("operations", 1);
+            let want = fresh(op, &bytes);
+            let k = kind(op);
+            if let Some((pk, pf)) = prev {
+                cover.hit(&format!("pair:{}{}->{}", pk, if pf { "(failed)" } else { "" }, k));
+            }
+            match (&got, &want) {
+                (Err(p), _) => rep.violation("C17", &format!("panic/{}/{}", k, panic_sig(p)), idx, &format!("op {} {:?}: {}", oi, op, p)),
+                (_, Err(_)) => {}
+                (Ok(g), Ok(w)) => {
+                    if hit {
+                        // the operation that suffered the device error may fail (C16 says it must); not compared
+                        cover.hit("transient-error-hit");
+                        rep.stat("ops_with_transient_error", 1);
+                    } else if g != w {
+                        let class = if failed_before { "after-failure" } else { "after-success" };
+                        rep.violation(
+                            "C17",
+                            &format!("different-result/{}/{}", k, class),
+                            idx,
+                            &format!("op {} {:?} on the used reader differs from a fresh reader (damage class {}, transient error earlier: {}); sequence so far {:?}; used: {} fresh: {}", oi, op, damage, fault_at_op.map_or(false, |f| f < oi), &seq[..=oi], g.chars().take(160).collect::<String>(), w.chars().take(160).collect::<String>()),
+                        );
+                        break;
+                    } else if failed_before {
+                        rep.stat("ops_equal_after_earlier_failure", 1);
+                    }
+                }
+            }
+            let this_failed = hit || got.as_ref().map_or(true, |g| g.contains("err:") || g.contains("|err"));
+            if this_failed {
+                failed_before = true;
+                rep.stat("ops_failed", 1);
+            }
+            prev = Some((k, this_failed));
+        }
+        if rep.samples < rep.max_samples {
+            rep.sample(J::obj().set("case", J::i(idx as i128)).set("pointclouds", J::u(pcs.len())).set("blobs", J::u(blobs.len())).set("damage_class", J::u(damage)).set("sequence", J::s(format!("{:?}", seq))));
+        }
+        cover.hit_num("sequence_identity", crate::rng::hash_str(&format!("{:?}{}", seq, damage)) >> 8);
+        rep.cover = cover;
+    });
+    rep.finish(done, reason);
 }
